@@ -240,6 +240,115 @@ Theorem C16_multi_gen_zero :
 Proof. exact c16_multi_gen_zero. Qed.
 Print Assumptions C16_multi_gen_zero.
 
+(* ---------- the ambient state of the process: observers ---------- *)
+(* Log levels and handlers, progress indicators, warnings filters, environment variables decide whether
+   OBSERVERS run inside a pass (code that shows something: a message, a preview, a progress line).
+   With the observers switched off a pass is the pass of the generator ... *)
+Theorem C16_pass_observers_off :
+  forall (seed sample : Type) (stream : seed -> nat -> sample) width (h : hooks) n cs (st : @state seed),
+  pass_obs stream width false h n cs st = step stream width (Pass n cs) st.
+Proof. exact @pass_obs_off. Qed.
+Print Assumptions C16_pass_observers_off.
+
+(* ... and so it is with any number of observers that look at a copy of the generator or restore what they
+   touched, at the start of the pass and between its chunks: the records are a function of the seed in
+   force only, whatever the ambient state switches on *)
+Theorem C16_pass_ambient_free :
+  forall (seed sample : Type) (stream : seed -> nat -> sample) width (h : hooks) n cs (st : @state seed),
+  forallb transparent (h_start h) = true -> forallb transparent (h_each h) = true ->
+  pass_obs stream width true h n cs st = pass_obs stream width false h n cs st.
+Proof. exact @pass_obs_ambient_free. Qed.
+Print Assumptions C16_pass_ambient_free.
+
+(* ANY observers at the start of a pass (previews on the live generator, probes) are harmless when the
+   generator is re-seeded after them *)
+Theorem C16_observers_then_reseed_harmless :
+  forall (seed sample : Type) (stream : seed -> nat -> sample) width (os each : list obs) n cs (st : @state seed),
+  pass_obs stream width true (mkHooks (os ++ [ORewind]) each) n cs st =
+  pass_obs stream width true (mkHooks [] each) n cs st.
+Proof. exact @start_rewind_harmless. Qed.
+Print Assumptions C16_observers_then_reseed_harmless.
+
+(* a pass is independent of an observer (an arbitrary function on the generator state, run between the
+   re-seed and the first chunk) IF AND ONLY IF the observer hands back the state of the re-seed *)
+Theorem C16_observer_free_iff :
+  forall (seed sample : Type) (stream : seed -> nat -> sample) width,
+  1 <= width -> stream_injective stream ->
+  forall f : @state seed -> @state seed,
+  (forall n cs st, pass_with stream width f n cs st = snd (step stream width (Pass n cs) st)) <->
+  (forall s, f (fresh s) = fresh s).
+Proof. exact @observer_free_iff. Qed.
+Print Assumptions C16_observer_free_iff.
+
+(* for the observers of the model: iff the observer does not advance the stream *)
+Theorem C16_start_observer_free_iff :
+  forall (seed sample : Type) (stream : seed -> nat -> sample) width (s0 : seed),
+  1 <= width -> stream_injective stream ->
+  forall o,
+  (forall n cs (st : @state seed),
+     snd (pass_obs stream width true (mkHooks [o] []) n cs st) = snd (pass_obs stream width false (mkHooks [o] []) n cs st)) <->
+  advance o = 0.
+Proof. exact @start_observer_free_iff. Qed.
+Print Assumptions C16_start_observer_free_iff.
+
+(* the sizes of the chunks never show an observer: "exactly n records" holds with every hook *)
+Theorem C16_pass_obs_sizes :
+  forall (seed sample : Type) (stream : seed -> nat -> sample) width on (h : hooks) n cs (st : @state seed),
+  map ch_size (snd (pass_obs stream width on h n cs st)) = random_sizes n cs.
+Proof. exact @pass_obs_sizes. Qed.
+Print Assumptions C16_pass_obs_sizes.
+
+(* the tie of the harness is sound: when the calls after the last reseed of the event log of a pass are the
+   sizes of the pass, the observers left the state of the re-seed behind *)
+Theorem C16_ambient_tie_sound :
+  forall (seed sample : Type) (stream : seed -> nat -> sample) width (os : list obs) n cs,
+  after_last_reseed (pass_obs_events os n cs) [] = random_sizes n cs ->
+  forall st : @state seed, pass_obs stream width true (mkHooks os []) n cs st = step stream width (Pass n cs) st.
+Proof. exact @tie_sound. Qed.
+Print Assumptions C16_ambient_tie_sound.
+
+(* an observer that draws its preview through get_probe (re-seeds, leaves the stream advanced) changes the
+   records while every size stays what it was; so does a live preview; between the chunks even a re-seed does *)
+Theorem C16_advancing_observer_refuted :
+  exists k n cs s,
+    let h := mkHooks [OProbe k] [] in
+    let stream := fun sd p : nat => sd + p in
+    snd (pass_obs stream 2 true h n cs (fresh s)) <> snd (pass_obs stream 2 false h n cs (fresh s)) /\
+    map ch_size (snd (pass_obs stream 2 true h n cs (fresh s))) =
+    map ch_size (snd (pass_obs stream 2 false h n cs (fresh s))).
+Proof. exact advancing_observer_refuted. Qed.
+Print Assumptions C16_advancing_observer_refuted.
+
+Theorem C16_preview_observer_refuted :
+  exists k n cs s,
+    let h := mkHooks [OPreview k] [] in
+    let stream := fun sd p : nat => sd + p in
+    snd (pass_obs stream 2 true h n cs (fresh s)) <> snd (pass_obs stream 2 false h n cs (fresh s)).
+Proof. exact preview_observer_refuted. Qed.
+Print Assumptions C16_preview_observer_refuted.
+
+Theorem C16_rewinding_each_observer_refuted :
+  exists n cs s,
+    let h := mkHooks [] [ORewind] in
+    let stream := fun sd p : nat => sd + p in
+    snd (pass_obs stream 2 true h n cs (fresh s)) <> snd (pass_obs stream 2 false h n cs (fresh s)).
+Proof. exact rewinding_each_observer_refuted. Qed.
+Print Assumptions C16_rewinding_each_observer_refuted.
+
+Theorem C16_ambient_case_zero :
+  forall r evs nout ra0 ra1 dec0 dec1 ras decs weights redshifts pairs ref_ras ref_decs ref_pairs bits_same same_neutral,
+  c16_ambient_case r evs nout ra0 ra1 dec0 dec1 ras decs weights redshifts pairs
+                   ref_ras ref_decs ref_pairs bits_same same_neutral = 0 ->
+  after_last_reseed evs [] = aroute_sizes r /\
+  nout = aroute_total r /\ length ras = aroute_total r /\
+  Forall2 Qeq ras ref_ras /\ Forall2 Qeq decs ref_decs /\
+  bits_same = true /\ same_neutral = true /\
+  (forall wz, In wz pairs ->
+     exists j, j < length weights /\ j < length redshifts /\
+               (fst wz == nth j weights 0)%Q /\ (snd wz == nth j redshifts 0)%Q).
+Proof. exact c16_ambient_case_zero. Qed.
+Print Assumptions C16_ambient_case_zero.
+
 (* footprint (real numbers) *)
 Open Scope R_scope.
 Theorem C16_window_ra : forall ra0 ra1 u, ra0 <= ra1 -> 0 <= u <= 1 -> ra0 <= ra_of ra0 ra1 u <= ra1.
@@ -328,3 +437,26 @@ Example C16_concrete_multi :
   outputs_of 2 (snd r) = [[mkChunk 2 [[100; 101]; [102; 103]; [104; 105]]]] /\
   outputs_of 0 (snd (wrun_shared stream sched (false, false) [])) <> outputs_of 0 (snd r).
 Proof. vm_compute. repeat split; try reflexivity. discriminate. Qed.
+
+(* non-vacuity of the observer part: stream (seed + position), 2 vectors per call, a pass of 5 records in chunks
+   of 2 from seed 7.  A silent observer and one that peeks at a copy, at the start and between the chunks:
+   the pass of the generator.  A preview through get_probe(3) at the start: the first chunk starts at
+   position 6 of the stream instead of 0 - other records, same sizes - and the event log shows the calls
+   3,2,2,1 after the last reseed instead of 2,2,1; followed by a re-seed it is harmless again *)
+Example C16_concrete_observers :
+  let stream := fun sd p : nat => sd + p in
+  let off := pass_obs stream 2 false (mkHooks [] []) 5 2 (fresh 7) in
+  snd off = [mkChunk 2 [[7; 8]; [9; 10]]; mkChunk 2 [[11; 12]; [13; 14]]; mkChunk 1 [[15]; [16]]] /\
+  pass_obs stream 2 true (mkHooks [OSilent; OPeek 3] [OPeek 1; OSilent]) 5 2 (fresh 7) = off /\
+  snd (pass_obs stream 2 true (mkHooks [OProbe 3] []) 5 2 (fresh 7))
+    = [mkChunk 2 [[13; 14]; [15; 16]]; mkChunk 2 [[17; 18]; [19; 20]]; mkChunk 1 [[21]; [22]]] /\
+  after_last_reseed (pass_obs_events [OProbe 3] 5 2) [] = [3; 2; 2; 1] /\
+  after_last_reseed (pass_obs_events [OProbe 3; ORewind] 5 2) [] = random_sizes 5 2 /\
+  pass_obs stream 2 true (mkHooks [OProbe 3; ORewind] []) 5 2 (fresh 7) = off /\
+  c16_ambient_case (APass 5 2) [EReseed; EReseed; ECall 2; ECall 2; ECall 1] 5 0%Q 1%Q 0%Q 1%Q
+                   [0%Q; 1%Q; 0%Q; 1%Q; 0%Q] [1%Q; 1%Q; 0%Q; 0%Q; 1%Q] [] [] []
+                   [0%Q; 1%Q; 0%Q; 1%Q; 0%Q] [1%Q; 1%Q; 0%Q; 0%Q; 1%Q] [] true true = 0 /\
+  c16_ambient_case (APass 5 2) [EReseed; EReseed; EReseed; ECall 3; ECall 2; ECall 2; ECall 1] 5 0%Q 1%Q 0%Q 1%Q
+                   [1%Q; 1%Q; 0%Q; 1%Q; 0%Q] [1%Q; 1%Q; 0%Q; 0%Q; 1%Q] [] [] []
+                   [0%Q; 1%Q; 0%Q; 1%Q; 0%Q] [1%Q; 1%Q; 0%Q; 0%Q; 1%Q] [] false false = 49.
+Proof. vm_compute. repeat split; reflexivity. Qed.
